@@ -41,6 +41,22 @@ OPS = [
     ("f-g", r"\bf\b", "g"), ("g-f", r"\bg\b", "f"),
 ]
 
+# second operator set (SWEEP_OPS=2): statement deletion, swapped call arguments, min/max, off-by-one constants
+OPS2 = [
+    ("stmt-del", r"^(\s*)(?!let |return|pub |fn |use |if |else|for |while |match |\}|\{|#|//)([A-Za-z_][^;{}]*;)\s*$", r"\1;"),
+    ("arg-swap", r"\(([A-Za-z_&][A-Za-z0-9_.&]*(?:\(\))?), ([A-Za-z_&][A-Za-z0-9_.&]*(?:\(\))?)\)", r"(\2, \1)"),
+    ("min-max", r"\.min\(", ".max("), ("max-min", r"\.max\(", ".min("),
+    ("lt-gt", r" < ", " > "), ("gt-lt", r" > ", " < "),
+    ("some-drop-q", r"\?;", ".unwrap();"),
+    ("is_empty-not", r"(\b[a-z_.0-9]+)\.is_empty\(\)", r"!\1.is_empty()"),
+    ("len-minus1", r"\.len\(\)(?! [-+])", ".len() - 1"),
+    ("range-incl", r"\.\.(?=[a-z(])", "..="),
+    ("iter-skip1", r"\.iter\(\)", ".iter().skip(1)"),
+    ("clone-default", r"\bNone\b", "Some(Default::default())"),
+]
+if os.environ.get("SWEEP_OPS") == "2":
+    OPS = OPS2
+
 FILE_PROPS = [
     ("src/array/", ["C07", "C20"]), ("src/finite_function/", ["C06"]), ("src/semifinite/", ["C06"]),
     ("src/indexed_coproduct/", ["C08"]), ("src/strict/hypergraph/acyclic", ["C17"]),
